@@ -20,6 +20,10 @@ func (l *recListener) Report(r gi.Report) { l.reps = append(l.reps, r) }
 
 // ---- safe calls -------------------------------------------------------------
 
+// battleTicks accumulates the ticks spent inside gmars calls of the current
+// case (simulated time of the scheduler-less engines).
+var battleTicks int64
+
 type callFail struct {
 	class string // "panic" | "no-progress"
 	disc  string
@@ -30,6 +34,7 @@ type callFail struct {
 // safeCall runs f against gmars under a solo tick budget, converting panics and
 // budget overruns into values.
 func safeCall(budget int64, f func()) (fail *callFail, ticks int64) {
+	defer func() { battleTicks += ticks }()
 	defer func() {
 		if r := recover(); r != nil {
 			ticks = simrt.SoloStop()
@@ -626,7 +631,9 @@ func (h *histState) opQueries() {
 		h.callFailed("GetMem", f)
 		return
 	}
-	if insFromI(cell) != h.model.GetMem(a) {
+	// an address at or beyond the core size must not panic; which cell it names
+	// is not prescribed by the battle rules, so only in-range reads are compared
+	if a < h.cfg.ref.M && insFromI(cell) != h.model.GetMem(a) {
 		h.res.add("C13", "C13 refinement GetMem", map[string]any{"addr": a, "got": fmt.Sprint(cell), "want": insStr(h.model.GetMem(a))})
 	}
 	// NextPC / Queue / Length / Alive on every handle ever returned
@@ -806,6 +813,8 @@ func (h *histState) finishDecoded(res *Result, kind string) {
 	}
 	res.NonTrivial = executed && len(h.data) > 0
 	res.stat("calls", int64(len(h.ops)))
+	res.stat("ticks", battleTicks)
+	battleTicks = 0
 	res.stat("max.history-length", int64(len(h.ops)))
 }
 
